@@ -7,6 +7,7 @@ import (
 	"runtime/pprof"
 	"strconv"
 	"strings"
+	"sync"
 	"sync/atomic"
 	"syscall"
 	"testing"
@@ -134,6 +135,11 @@ func CheckBubble(tt *testing.T, property string, prop func(*T)) {
 			var firstFail *T
 			for i := 0; i < cases && !seenFail; i++ {
 				progress.Add(1)
+				if os.Getenv("VT_TEST_WEDGE") != "" && i == 1 {
+					var mu sync.Mutex // self-test of the watchdog: block non-durably for ever
+					mu.Lock()
+					mu.Lock()
+				}
 				_ = flag.Set("rapid.seed", strconv.FormatUint(seed+uint64(i)*7919, 10))
 				tb := &bubbleTB{name: name}
 				func() {
